@@ -3,7 +3,7 @@ From Coq Require Import ZArith List Bool String.
 From VD Require Import Base.Bytes Base.Text Base.Sexp Base.PixFmt Base.Struct.
 From VD Require Import Model.ClientMsgs Model.Keys Model.Pointer Model.ClientOps Spec.C2S.
 From VD Require Import Spec.DES Model.Auth.
-From VD Require Import Model.Server Extract.DispatchRfb Extract.DispatchCmd Extract.DispatchProxy Extract.DispatchReplay Extract.DispatchScript.
+From VD Require Import Model.Server Extract.DispatchRfb Extract.DispatchCmd Extract.DispatchProxy Extract.DispatchReplay Extract.DispatchScript Extract.DispatchSpec.
 Import ListNotations.
 Open Scope Z_scope.
 
@@ -121,4 +121,5 @@ Definition dispatch (name : list Z) (a : sexp) : sexp :=
   else if name_is name "script_run" then d_script_run op_of_sexp a
   else if name_is name "vnc_key" then d_vnc_key a
   else if name_is name "ard_parts" then d_ard_parts a
+  else if name_is name "spec_update" then d_spec_update a
   else sErr.
